@@ -60,7 +60,9 @@ CLAIMED["C01"] = {
           "expression's source value in the shell semantics, touching only fresh helpers; (2) simulation for every terminating program of assignments, "
           "simultaneous assignments, prints, if/else-if/else, three-clause and condition-only loops, break, continue and call statements at any nesting depth: the "
           "emitted lines, run by the flat shell machine (Sem/FlatLoop.v), print what the source prints and leave the environment representing the final source "
-          "environment; (3) literal printing/reading round trip, int64 reference arithmetic, script structure. Each simulation theorem has an Example establishing "
+          "environment; (2b) whole programs end to end (C01_program_preserved): if the extracted interpreter of the source semantics answers out and a decidable "
+          "name/fragment check holds, the emitted script run by the flat shell machine prints out - every hypothesis is a computation, evaluated on every generated program; "
+          "(3) literal printing/reading round trip, int64 reference arithmetic, script structure. Each simulation theorem has an Example establishing "
           "all its hypotheses for a concrete program. Everything else (slices, strings as sequences, calls as operands, panic) is decided by executing generated "
           "programs: implementation script under /bin/bash vs the reference semantics, script bytes vs the model, flat machine vs /bin/bash.",
   "ref": "DESIGN.md section 10.2 and 5/C01",
